@@ -88,7 +88,8 @@ fn main() {
             let seed: u64 = args.get(3).and_then(|s| s.parse().ok()).unwrap_or(0);
             let n: usize = args.get(4).and_then(|s| s.parse().ok()).unwrap_or(0);
             match args[2].as_str() {
-                "c12" => checks::c12::worker(seed, n),
+                "c12" => checks::c12::worker(seed, n, false),
+                "c12rev" => checks::c12::worker(seed, n, true),
                 "c15serve" => checks::c15::serve(),
                 _ => usage(),
             }
